@@ -22,6 +22,7 @@ HERE = os.path.dirname(os.path.abspath(__file__))
 sys.path.insert(0, HERE)
 import vcgen  # noqa: E402
 import vcarray  # noqa: E402
+import vcloops  # noqa: E402
 
 ORD_LAWS = ['le_iff_not_lt_swapped', 'ge_iff_le_swapped', 'gt_iff_lt_swapped', 'total', 'lt_irreflexive',
             'lt_consistent_with_equal', 'lt_transitive']
@@ -306,6 +307,179 @@ def run_array_mutants(src, d, prelude_path):
     return results
 
 
+# ----------------------------------------------------------------------------- loop mutants (C26, bounded unrolling)
+
+L = "array."
+CLONE_TAIL = "        }\n        new\n    }\n}\nimplement Clone for void"
+LOOP_MUTANTS = [
+    # ---- must FAIL
+    ("find returns .some(i + 1)", 'fail', lambda s: s.replace("return .some(i)", "return .some(i + 1)", 1), [L + "find.model"]),
+    ("find iterates `for i in self.len() - 1`", 'fail',
+     lambda s: s.replace("        for i in self.len() {\n            if self[i] == x {", "        for i in self.len() - 1 {\n            if self[i] == x {", 1),
+     [L + "find.model", L + "contains.model"]),
+    ("find compares with `!=`", 'fail', lambda s: s.replace("            if self[i] == x {", "            if self[i] != x {", 1),
+     [L + "find.model", L + "contains.model"]),
+    ("contains with its arms swapped", 'fail',
+     lambda s: s.replace("            .some(_) -> true\n            .none -> false\n        }\n    }\n}\n\nextend array<T Ord>",
+                         "            .some(_) -> false\n            .none -> true\n        }\n    }\n}\n\nextend array<T Ord>", 1),
+     [L + "contains.model"]),
+    ("clear with `while self.len() > 1`", 'fail', lambda s: s.replace("while self.len() > 0 {", "while self.len() > 1 {", 1), [L + "clear.model"]),
+    ("clear with `while true` (pops the empty array: runtime error)", 'fail',
+     lambda s: s.replace("while self.len() > 0 {", "while true {", 1), [L + "clear.model"]),
+    ("filled pushes twice per round", 'fail',
+     lambda s: s.replace("            ret.push(Clone.clone(x))\n", "            ret.push(Clone.clone(x))\n            ret.push(Clone.clone(x))\n", 1),
+     [L + "filled.model"]),
+    ("filled with `for _ in n - 1`", 'fail', lambda s: s.replace("for _ in n {", "for _ in n - 1 {", 1), [L + "filled.model"]),
+    ("filled with `for _ in n + 1`", 'fail', lambda s: s.replace("for _ in n {", "for _ in n + 1 {", 1), [L + "filled.model"]),
+    ("filled pushes x itself (no Clone.clone): shared rows for x: array<int>", 'fail',
+     lambda s: s.replace("            ret.push(Clone.clone(x))\n", "            ret.push(x)\n", 1), [L + "filled.model"]),
+    ("filled `avoids one clone`: clones n-1 times and pushes x itself into the last slot", 'fail',
+     lambda s: s.replace("        for _ in n {\n            ret.push(Clone.clone(x))\n        }\n        ret\n",
+                         "        for _ in n - 1 {\n            ret.push(Clone.clone(x))\n        }\n        ret.push(x)\n        ret\n", 1),
+     [L + "filled.model"]),
+    ("the same, guarded for n > 0 (only the independence clause can see it)", 'fail',
+     lambda s: s.replace("        for _ in n {\n            ret.push(Clone.clone(x))\n        }\n        ret\n",
+                         "        if n > 0 {\n            for _ in n - 1 {\n                ret.push(Clone.clone(x))\n            }\n            ret.push(x)\n        }\n        ret\n", 1),
+     [L + "filled.model"]),
+    ("clone pushes every element twice", 'fail',
+     lambda s: s.replace("            new.push(Clone.clone(x)) // TODO", "            new.push(Clone.clone(x))\n            new.push(Clone.clone(x)) // TODO", 1),
+     [L + "clone.model"]),
+    ("clone returns `arr` itself (aliasing)", 'fail', lambda s: s.replace(CLONE_TAIL, CLONE_TAIL.replace("        new\n", "        arr\n"), 1),
+     [L + "clone.model"]),
+    ("clone is shallow (`new.push(x)`)", 'fail', lambda s: s.replace("new.push(Clone.clone(x)) // TODO", "new.push(x) // TODO", 1), [L + "clone.model"]),
+    ("Clone for int is `x + 1`", 'fail',
+     lambda s: s.replace("implement Clone for int {\n    fn clone(x) = x", "implement Clone for int {\n    fn clone(x) = x + 1", 1),
+     [L + "clone.model", L + "filled.model"]),
+    ("ArrayIterator.next returns .none one element early", 'fail',
+     lambda s: s.replace("if self.i == self.arr.len() {", "if self.i == self.arr.len() - 1 {", 1), [L + "iteration.model", L + "clone.model"]),
+    ("ArrayIterator.next advances by 2", 'fail',
+     lambda s: s.replace("            self.i = self.i + 1\n", "            self.i = self.i + 2\n", 1), [L + "iteration.model", L + "clone.model"]),
+    ("ArrayIterator starts at 1", 'fail', lambda s: s.replace("ArrayIterator(self, 0)", "ArrayIterator(self, 1)", 1), [L + "iteration.model", L + "clone.model"]),
+    ("RangeIterator.next tests `>` instead of `>=`", 'fail',
+     lambda s: s.replace("if self.begin >= self.end {", "if self.begin > self.end {", 1), [L + "find.model", L + "filled.model"]),
+    ("Iterable for int starts at 1", 'fail', lambda s: s.replace("RangeIterator(0, self)", "RangeIterator(1, self)", 1), [L + "find.model", L + "filled.model"]),
+    # ---- must stay exactly as the baseline
+    ("find compares `x == self[i]` (symmetry of the Equal contract)", 'same', lambda s: s.replace("if self[i] == x {", "if x == self[i] {", 1), []),
+    ("clear with `while not (self.len() == 0)`", 'same', lambda s: s.replace("while self.len() > 0 {", "while not (self.len() == 0) {", 1), []),
+    ("contains with a wildcard arm", 'same',
+     lambda s: s.replace("            .some(_) -> true\n            .none -> false\n        }\n    }\n}\n\nextend array<T Ord>",
+                         "            .none -> false\n            _ -> true\n        }\n    }\n}\n\nextend array<T Ord>", 1), []),
+    ("find written with `continue`", 'same',
+     lambda s: s.replace("            if self[i] == x {\n                return .some(i)\n            }\n",
+                         "            if self[i] != x {\n                continue\n            }\n            return .some(i)\n", 1), []),
+    # ---- must be refused / undecided, never guessed
+    ("clear never pops (unwinding assertion)", 'refuse',
+     lambda s: s.replace("            self.pop()\n        }\n    }\n\n    fn bounds", "            self.len()\n        }\n    }\n\n    fn bounds", 1), [L + "clear.model"]),
+    ("lambda inside find", 'refuse', lambda s: s.replace("            if self[i] == x {", "            let f = (y -> y)\n            if self[i] == x {", 1),
+     [L + "find.model", L + "contains.model"]),
+    ("`type option` lists `none` first (the for-lowering takes tag 0 as `some`)", 'refuse',
+     lambda s: s.replace("type option<T> = some(T) | none", "type option<T> = none | some(T)", 1), [L + "find.model", L + "iteration.model"]),
+    ("a second `fn find` in another extend block", 'refuse',
+     lambda s: s + "\nextend array<T> {\n    fn find(self, x) {\n      nil\n    }\n}\n", [L + "find.model", L + "contains.model"]),
+    ("element comparison `<` in find (T's Ord is not modelled)", 'refuse',
+     lambda s: s.replace("            if self[i] == x {", "            if self[i] < x {", 1), [L + "find.model"]),
+]
+
+
+def loop_statuses(out):
+    return {o['id'][len("C26.prelude."):]: o['status'] for o in out['obligations']}
+
+
+def run_loop_mutants(src, d, prelude_path, N=4):
+    results = []
+    base = loop_statuses(vcloops.analyse_loops(prelude_path, N, with_canaries=False))
+    for i, (desc, kind_, mut, named) in enumerate(LOOP_MUTANTS):
+        res = dict(n="L%02d" % (i + 1), mutation=desc, kind=kind_, named=named)
+        msrc = mut(src)
+        if msrc == src:
+            res.update(ok=False, why="mutation anchor not found in this prelude (text unchanged)")
+            results.append(res)
+            continue
+        path = os.path.join(d, "prelude_l%02d.abra" % (i + 1))
+        with open(path, 'w', encoding='utf-8') as f:
+            f.write(msrc)
+        out = vcloops.analyse_loops(path, N, with_canaries=False)
+        if out.get('fatal'):
+            res.update(ok=False, why="unexpected fatal: " + out['fatal'])
+            results.append(res)
+            continue
+        st = loop_statuses(out)
+        changed = {k: (base[k], v) for k, v in st.items() if base.get(k) != v}
+        res['changed'] = {k: "%s->%s" % v for k, v in sorted(changed.items())}
+        if kind_ == 'fail':
+            missing = [k for k in named if st.get(k) != 'failed']
+            res.update(ok=not missing, why="not failed: %s" % missing if missing else "")
+        elif kind_ == 'same':
+            res.update(ok=not changed, why="statuses changed" if changed else "")
+        else:
+            missing = [k for k in named if st.get(k) != 'undecided']
+            guessed = [k for k, (b, v) in changed.items() if v == 'discharged']
+            res.update(ok=not missing and not guessed,
+                       why=("not undecided: %s " % missing if missing else "") + ("verdict changed without being refused: %s" % guessed if guessed else ""))
+        results.append(res)
+    return results
+
+
+# ----------------------------------------------------------------------------- array Equal / Hash law mutants (C24, bounded unrolling)
+
+EA, HA = "Equal.array.", "Hash.array."
+LAW_MUTANTS = [
+    ("Equal for array: the length check is dropped", 'fail',
+     lambda s: s.replace("        if a.len() != b.len() {\n            return false\n        }\n        for i in a.len() {", "        for i in a.len() {", 1),
+     [EA + "symmetric", EA + "model"]),
+    ("Equal for array: `for i in a.len() - 1`", 'fail',
+     lambda s: s.replace("        for i in a.len() {\n            if a[i] != b[i] {", "        for i in a.len() - 1 {\n            if a[i] != b[i] {", 1),
+     [EA + "model", HA + "consistent"]),
+    ("Equal for array: `==` instead of `!=` in the loop", 'fail',
+     lambda s: s.replace("            if a[i] != b[i] {", "            if a[i] == b[i] {", 1), [EA + "reflexive", EA + "model"]),
+    ("Hash for array starts from a.len() instead of 17 (still consistent)", 'same',
+     lambda s: s.replace("        var h = 17\n        for elem in a {", "        var h = a.len()\n        for elem in a {", 1), []),
+    ("Hash for array ignores the elements (coarser, still consistent)", 'same',
+     lambda s: s.replace("            h = hash_combine(h, elem)", "            h = hash_combine(h, 0)", 1), []),
+    ("Hash for array combines in the other argument order (still a function of the elements)", 'same',
+     lambda s: s.replace("wrapping_add(wrapping_mul(seed, 31), Hash.hash(value))", "wrapping_add(Hash.hash(value), wrapping_mul(seed, 31))", 1), []),
+    ("`while` with a lambda in Equal for array", 'refuse',
+     lambda s: s.replace("        for i in a.len() {\n            if a[i] != b[i] {", "        let f = (y -> y)\n        for i in a.len() {\n            if a[i] != b[i] {", 1),
+     [EA + "reflexive", HA + "consistent"]),
+]
+
+
+def run_law_mutants(src, d, prelude_path, N=3):
+    results = []
+    st_of = lambda out: {o['id'][len("C24.prelude."):]: o['status'] for o in out['obligations']}  # noqa: E731
+    base = st_of(vcloops.analyse_array_laws(prelude_path, N, with_canaries=False))
+    for i, (desc, kind_, mut, named) in enumerate(LAW_MUTANTS):
+        res = dict(n="E%02d" % (i + 1), mutation=desc, kind=kind_, named=named)
+        msrc = mut(src)
+        if msrc == src:
+            res.update(ok=False, why="mutation anchor not found in this prelude (text unchanged)")
+            results.append(res)
+            continue
+        path = os.path.join(d, "prelude_e%02d.abra" % (i + 1))
+        with open(path, 'w', encoding='utf-8') as f:
+            f.write(msrc)
+        out = vcloops.analyse_array_laws(path, N, with_canaries=False)
+        if out.get('fatal'):
+            res.update(ok=False, why="unexpected fatal: " + out['fatal'])
+            results.append(res)
+            continue
+        st = st_of(out)
+        changed = {k: (base[k], v) for k, v in st.items() if base.get(k) != v}
+        res['changed'] = {k: "%s->%s" % v for k, v in sorted(changed.items())}
+        if kind_ == 'fail':
+            missing = [k for k in named if st.get(k) != 'failed']
+            res.update(ok=not missing, why="not failed: %s" % missing if missing else "")
+        elif kind_ == 'same':
+            res.update(ok=not changed, why="statuses changed" if changed else "")
+        else:
+            missing = [k for k in named if st.get(k) != 'undecided']
+            guessed = [k for k, (b, v) in changed.items() if v == 'discharged']
+            res.update(ok=not missing and not guessed,
+                       why=("not undecided: %s " % missing if missing else "") + ("verdict changed without being refused: %s" % guessed if guessed else ""))
+        results.append(res)
+    return results
+
+
 def statuses(out):
     return {"%s.%s" % (o['type'], o['law']): o['status'] for o in out['obligations']}
 
@@ -364,6 +538,8 @@ def main():
             results.append(res)
         if not args.no_arrays:
             results += run_array_mutants(src, d, args.prelude)
+            results += run_loop_mutants(src, d, args.prelude)
+            results += run_law_mutants(src, d, args.prelude)
     finally:
         shutil.rmtree(d, ignore_errors=True)
     ok = all(r['ok'] for r in results)
